@@ -482,6 +482,8 @@ var runtimeBadBodies = []string{
 	`<b>{{.V}}</b><div id="{{.V}}">`,
 	`x<a target="{{.V}}">`,
 	`{{.V}}<script src="{{.U}}"></script>`,
+	// the first rel counts: the href needs a TrustedResourceURL
+	`<link {{if .C}}title {{end}}rel="stylesheet" rel="icon" href="{{.U}}">`,
 	// a DOCTYPE ends at the first '>': the action is in a script body
 	`<!DOCTYPE html <p title="><script>{{.V}}</script>">`,
 }
@@ -489,7 +491,7 @@ var runtimeBadBodies = []string{
 var badBodies = map[string][]string{
 	"if-branches":        {`{{if .C}}<a href="{{end}}x`, `{{if .C}}<b title='{{else}}<b>{{end}}`},
 	"range-reentry":      {`{{range .L}}<a href="{{end}}`, `{{range .L}}<textarea>{{end}}`, `<b{{range .L}}><script{{end}}>alert(1)</script>`, `<ul>{{range .L}}<li title="{{else}}<li title="{{end}}{{.V}}"></li></ul>`, `<a target="{{range .L}}{{.V}}x{{end}}">y</a>`},
-	"nontext-end":        {`<a href="`, `<p>x</p><textarea>`, `<b `, `<a title='x`, `<p>x</p><!-- TODO {{.V}}`, `<!--`, `<p>{{.V}}</p><script>var a=1;`, `<style>p{}`},
+	"nontext-end":        {`<p>x</p>{{if .C}}<script{{else}}<div{{end}}>`, `<s{{if .C}}cript{{end}}>`, `<p>x</p>{{if .C}}<script{{else}}<br{{end}}>`, `<a href="`, `<p>x</p><textarea>`, `<b `, `<a title='x`, `<p>x</p><!-- TODO {{.V}}`, `<!--`, `<p>{{.V}}</p><script>var a=1;`, `<style>p{}`},
 	"nontext-end-call":   {`<p>{{template "h0" .}}</p><a href="`, `{{template "h0" .}}<b title='x`, `<i>{{template "h0" .}}</i><textarea>`},
 	"action-in-tag":      {`<a {{.V}}>`, `<a{{.V}}>`, `<a title="x" {{.V}}="y">`},
 	"unquoted-value":     {`<a title={{.V}}>`, `<a href=/x/{{.V}}>`},
@@ -511,7 +513,8 @@ var badBodies = map[string][]string{
 	"name-split":            {`<s{{if .C}}cript{{end}}>{{template "hv" .}}</script>`, `<s{{template "hc"}}{{.V}}`, `<img{{if .C}}l{{end}}>{{.V}}`, `<a title{{if .C}} {{end}}href="{{.U}}">x</a>`, `<s{{if .C}}cript{{end}}>{{.V}}</script>`, `<b{{if .C}} {{end}}title="{{.V}}">x</b>`, `<textarea{{if .C}} r{{end}}ows="2">a<b>{{.V}}</textarea>`, `<link re{{if .C}}l{{end}}="stylesheet" rel="icon" href="{{.U}}">`},
 	"range-reentry-rewrite": {`<a title="{{range .L}}{{.V}}" href="{{end}}">x</a>`, `<p>{{range .L}}{{.V}}<script>{{else}}<script>{{end}}</script>`, `<p {{range .L}}title="{{.V}}"><p{{end}}>`, `<a href="/p/{{range .L}}{{.V}}?x={{end}}">y</a>`},
 	"recursion-open-name":   {`{{define "rn"}}{{if .Next}}{{template "rn" .Next}}title="{{.V}}"{{end}}><a{{end}}|||<a {{template "rn" .}} >`},
-	"tag-syntax":            {`<script </script>{{.V}}</script>`, `<a title={{if .C}}x{{end}} alt="{{.V}}">y</a>`, `<b title{{if .C}}/{{end}}="{{.V}}">x</b>`},
+	"recursion-hidden":      {`{{define "rh"}}{{if .Next}}{{template "rh" .Next}}{{.V}}{{else}}</div>{{if .C}}<script{{else}}<div{{end}}>{{end}}{{end}}|||<div>{{template "rh" .}}`, `{{define "ri"}}{{if .Next}}{{template "ri" .Next}}{{.V}}{{else}}"></a><a href="{{end}}{{end}}|||<a href="/x/{{template "ri" .}}">y</a>`, `{{define "rj"}}/{{if .Next}}{{template "rj" .Next}}{{end}}{{end}}|||<script src="{{template "rj" .}}x{{.V}}"></script>`, `{{define "rk"}}{{if .Next}}{{template "rk" .Next}}{{.V}}{{else}}" {{if .C}}href{{else}}title{{end}}="{{end}}{{end}}|||<a title="{{template "rk" .}}">z</a>`},
+	"tag-syntax":            {`<a {{if .C}}href{{end}}="/p?q=" title="{{.V}}">x</a>`, `{{if .C}}<a{{else}}</a{{end}} /="/p?q=" data-x="{{.V}}">`, `<script </script>{{.V}}</script>`, `<a title={{if .C}}x{{end}} alt="{{.V}}">y</a>`, `<b title{{if .C}}/{{end}}="{{.V}}">x</b>`},
 	"predefined-escaper":    {`{{.V | html | print}}`, `<a title={{.V | html}}>`},
 	"js-template":           {"<script>var a = `x</script>", "<script>`${</script>"},
 	"enum-partial":          {`<a target="x{{.V}}">`},
